@@ -84,21 +84,26 @@ def run_direct(case):
 
 
 def run_pipeline(case):
-    from vv import cfggen, compile as vc, netgen, tflw
+    from vv import campaign, cfggen, compile as vc, netgen, tflw
 
     rng = np.random.default_rng(np.random.SeedSequence([44, case["seed"]]))
     viol = {}
     counters = {"pipeline_streams_checked": 0}
     keys = []
     log = vc.StreamLog().install()
-    for t in range(case["n"]):
-        fam = ["exact-chain", "exact-dag", "stripe-stress", "approx-tail", "lut-stress", "alias-stress", "buffer-stress", "lut-stress"][int(rng.integers(0, 8))]
-        net = netgen.make(fam, case["seed"] * 50 + t)
-        cfg = cfggen.rand_cfg(rng)
+    single = case.get("model_z") and case.get("wcfg")  # replay of one witness: the recorded model and configuration, not the regenerated batch
+    for t in range(1 if single else case["n"]):
+        if single:
+            fam, cfg, model = case.get("wfamily", "?"), case["wcfg"], campaign.unpack_model(case["model_z"])
+        else:
+            fam = ["exact-chain", "exact-dag", "stripe-stress", "approx-tail", "lut-stress", "alias-stress", "buffer-stress", "lut-stress"][int(rng.integers(0, 8))]
+            net = netgen.make(fam, case["seed"] * 50 + t)
+            cfg = cfggen.rand_cfg(rng)
+            model = tflw.build(net)
         d = os.path.join(case["sdir"], "p%d_%d" % (case["seed"], t))
         os.makedirs(d, exist_ok=True)
         mp = os.path.join(d, "n.tflite")
-        open(mp, "wb").write(tflw.build(net))
+        open(mp, "wb").write(model)
         del log.calls[:]
         vc.run_inproc(mp, cfg, os.path.join(d, "o"))
         import ethosu.vela.tensor as tmod
@@ -111,7 +116,10 @@ def run_pipeline(case):
             for k, v in c2.items():
                 counters["pipeline_" + k] = counters.get("pipeline_" + k, 0) + v
             counters["pipeline_streams_checked"] += 1
-            report(findings, viol, "%s on %s" % (fam, cfg["acc"]), {"family": fam, "nseed": case["seed"] * 50 + t, "cfg": cfg}, part="pipeline")
+            wit = {"family": fam, "nseed": case["seed"] * 50 + t, "cfg": cfg}
+            if findings:
+                wit["model_z"] = campaign.pack_model(model)
+            report(findings, viol, "%s on %s" % (fam, cfg["acc"]), wit, part="pipeline")
             keys.append("p:%s:%s" % (fam, cfg["acc"]))
         import shutil
 
